@@ -61,6 +61,9 @@ def framing_variants():
     for te in (b"gzip", b"identity", b"gzip, chunked", b"chunked, gzip", b"chunked, chunked", b"Chunked", b"CHUNKED", b"chunked ", b" chunked", b"chunked\t",
                b"x-chunked", b"chunked;q=1", b"\"chunked\"", b"chunke", b"chunkedd", b"chunked,", b",chunked", b"chunked\x0b", b"\x85chunked"):
         V.append(("te-" + repr(te), P([(b"Transfer-Encoding", te)], ch)))
+    V.append(("te-fold-lf", P([(b"Transfer-Encoding", b"chunked\r\n \n")], ch)))
+    V.append(("te-fold", P([(b"Transfer-Encoding", b"chunked\r\n ")], ch)))
+    V.append(("cl-fold-lf", P([(b"Content-Length", b"3\r\n \n")], b"abc")))
     V.append(("te-two-lines", P([(b"Transfer-Encoding", b"gzip"), (b"Transfer-Encoding", b"chunked")], ch)))
     V.append(("te-underscore", P([(b"Transfer_Encoding", b"chunked")], ch)))
     V.append(("te-http10", P([(b"Transfer-Encoding", b"chunked"), (b"Connection", b"keep-alive")], ch, v=b"HTTP/1.0")))
@@ -83,6 +86,8 @@ def framing_variants():
     for name, line in (("bare-lf", b"X-A: 1\nX-B: 2\r\n"), ("bare-cr", b"X-A: 1\rX-B: 2\r\n"), ("ws-before-colon", b"X-A : 1\r\n"), ("name-space", b"X A: 1\r\n"),
                        ("name-empty", b": 1\r\n"), ("no-colon", b"X-A 1\r\n"), ("name-paren", b"X(A): 1\r\n"), ("name-utf8", b"X-\xc3\xa9: 1\r\n"),
                        ("value-nul", b"X-A: a\x00b\r\n"), ("value-vt", b"X-A: a\x0bb\r\n"), ("value-del", b"X-A: a\x7fb\r\n"), ("value-obs", b"X-A: caf\xe9\r\n"),
+                       ("fold-cont-lf", b"X-A: a\r\n b\nX-B: 2\r\n"), ("fold-cont-cr", b"X-A: a\r\n b\rX-B: 2\r\n"), ("fold-cont-lf-end", b"X-A: a\r\n b\n\r\n"),
+                       ("fold-cont-lf-only", b"X-A: a\r\n \n\r\n"), ("fold-tab-lf", b"X-A: a\r\n\tb\n\r\n"), ("fold-cont-cr-end", b"X-A: a\r\n b\r\r\n"),
                        ("value-empty", b"X-A:\r\n"), ("value-tabs", b"X-A:\t a \t\r\n"), ("host-dup", b"Host: other\r\n"), ("ctype-dup", b"Content-Type: a\r\nContent-Type: b\r\n")):
         V.append(("hdr-" + name, G(line)))
     V.append(("fold-first", msg().replace(b"GET /a HTTP/1.1\r\n", b"GET /a HTTP/1.1\r\n X-A: 1\r\n")))
@@ -113,7 +118,7 @@ def corpus(thorough, rng):
         out.append((n + "+garbage", m + b"\x00\x01\x02 garbage\r\n\r\n"))
     # single-byte mutations at every position of the framing-critical sentences
     reps = [0, 9, 10, 11, 13, 32, 43, 45, 48, 58, 59, 65, 95, 120, 127, 128, 0x85, 0xa0]
-    targets = [S[4], S[7], S[8], S[9], S[1]] if not thorough else S
+    targets = [S[4], S[7], S[8], S[9], S[1], S[12]] if not thorough else S
     for n, m in targets:
         positions = range(len(m)) if thorough else range(0, len(m), 1)
         for i in positions:
